@@ -159,12 +159,18 @@ def ensure_build():
 
 
 # ----------------------------------------------------------------------------- stage B
+TWIN_VARIANTS = ('base', 'nft', 'gt1', 'lgt', 'ngt', 'gt2', 'lock', 'nft', 'mig', 'lgt', 'ngt', 'gt2')
+
+
 def _gen_worker(args):
     seed, start, count, size_mix, twin = args
     rng = random.Random(seed)
     res = []
     for i in range(start, start + count):
         v = VARIANTS[i % 8]
+        if twin:
+            # twins are about the resumable steps: the variants with a third step get two thirds of the pairs
+            v = TWIN_VARIANTS[i % len(TWIN_VARIANTS)]
         size = 'big' if (i // 8) % size_mix == size_mix - 1 else 'small'
         lines, h = gen_lifecycle(rng, v, 'g%d' % i, size=size, twin=twin)
         res.append((lines, h.twin_lines if twin else None, h.kinds, h.ncalls))
